@@ -628,14 +628,14 @@ theorem gen_countLinks (directed : Bool) (A : List Bool) :
 `k` of `(1-ρ)·len`, which satisfies both index hypotheses of the density theorems with `ε = 0`,
 and it addresses an existing entry -/
 theorem gen_thrIndex (ρ : Rat) (len : Nat) (hρ1 : ρ ≤ 1) (hlen : 0 < len) :
-    ∃ k : Nat, ArithC09.thrIndex ρ (len : Int) = ((min k (len - 1) : Nat) : Int) ∧
+    ∃ k : Nat, StructC09.thrIndex ρ (len : Int) = ((min k (len - 1) : Nat) : Int) ∧
       (1 - ρ) * (len : Rat) - 1 - 0 ≤ (k : Rat) ∧ (k : Rat) ≤ (1 - ρ) * (len : Rat) + 0 := by
   have hx : 0 ≤ (1 - ρ) * (len : Rat) := by
     apply Rat.mul_nonneg (by grind)
     exact_mod_cast Nat.zero_le len
   have hf0 : 0 ≤ ((1 - ρ) * (len : Rat)).floor := Rat.le_floor_iff.2 (by simpa using hx)
   refine ⟨((1 - ρ) * (len : Rat)).floor.toNat, ?_, ?_, ?_⟩
-  · simp only [ArithC09.thrIndex]
+  · simp only [StructC09.thrIndex]
     have e : ((1 : Int) : Rat) - ρ = 1 - ρ := by norm_cast
     have e2 : (((len : Nat) : Int) : Rat) = (len : Rat) := by norm_cast
     rw [e, e2]
